@@ -47,6 +47,21 @@ ASSUMPTIONS = [
 PROBE_QUERIES = c06.PROBES
 
 
+class StaleListStorage(FileStorage):
+    """FileStorage whose next directory listing is one taken earlier: the process that opens the index was
+    descheduled between listing the directory (to find the newest TOC) and opening that TOC."""
+    _stale = None
+
+    def list(self):
+        if self._stale is not None:
+            names, self._stale = self._stale, None
+            return names
+        return FileStorage.list(self)
+
+    def __iter__(self):
+        return iter(self.list())
+
+
 class StaleFirstIndex(FileIndex):
     """FileIndex whose next TOC read is answered with a TOC that was read earlier: the reader was descheduled
     between reading the TOC and opening the segments."""
@@ -91,7 +106,7 @@ def case_s(draw):
     # a few searchers, each opened somewhere and then followed through later transactions
     for _ in range(draw(st.integers(1, 3))):
         t0 = draw(st.integers(0, ntx - 1))
-        actions.append({"tx": t0, "frac": draw(fracs), "kind": draw(st.sampled_from(["open", "open", "open", "split_open"])),
+        actions.append({"tx": t0, "frac": draw(fracs), "kind": draw(st.sampled_from(["open", "open", "open", "split_open", "stale_list_open"])),
                         "who": 0, "lag": draw(st.integers(1, 40))})
         for _ in range(draw(st.integers(1, 4))):
             actions.append({"tx": draw(st.integers(t0, ntx - 1)), "frac": draw(fracs),
@@ -269,6 +284,11 @@ def run(case, out):
                 held[slot] = {"searcher": s, "expected": states[st_["cur"]], "state": st_["cur"],
                               "crossed_merge": False, "crossed_cleanup": False}
                 return
+            if kind == "stale_list_open":
+                if case["store"] == "ram":
+                    return
+                pending.append({"listing": sorted(os.listdir(workdir)), "state": st_["cur"], "due": a["lag"], "stale_list": True})
+                return
             if kind == "split_open":
                 ix = reader_index(StaleFirstIndex)
                 try:
@@ -332,7 +352,40 @@ def run(case, out):
         def gens_at(state_index):
             return gens[state_index]
 
+        def finish_stale_list(p, where):
+            # open_dir() whose directory listing is older than its TOC read
+            stg = StaleListStorage(workdir, supports_mmap=(case["store"] != "file_nommap"))
+            stg._stale = list(p["listing"])
+            try:
+                ix = FileIndex(stg, schema=None, indexname="MAIN")
+                s = ix.searcher()
+            except Exception as e:
+                fail("c03.open_with_stale_listing_raises:" + type(e).__name__,
+                     {"where": where, "error": "".join(traceback.format_exception_only(type(e), e))[-300:],
+                      "listed_in_state": p["state"], "now_state": st_["cur"]})
+                return
+            try:
+                exp = states[p["state"]] if s.reader().generation() == gens[p["state"]] else states[st_["cur"]]
+                out.label("stale_listing_old_toc" if exp is states[p["state"]] and p["state"] != st_["cur"] else "stale_listing_current")
+                try:
+                    got = probe(s)
+                except Exception as e:
+                    if lazy_cfg and s.reader().generation() != st_["gen"]:
+                        fail("c03.lazily_opened_files_vanish_under_held_reader", {"where": where})
+                    else:
+                        fail("c03.stale_listing_searcher_raises:" + type(e).__name__, {"where": where})
+                    return
+                if got != exp:
+                    sig = "c03.stale_listing_searcher_mixed_state"
+                    if lazy_cfg and s.reader().generation() != st_["gen"]:
+                        sig = "c03.lazily_opened_files_vanish_under_held_reader"
+                    fail(sig, {"where": where, "diff": diff(exp, got)[:6]})
+            finally:
+                s.close()
+
         def finish_split(p, where):
+            if p.get("stale_list"):
+                return finish_stale_list(p, where)
             # whoosh's own FileIndex.reader() loop, with its first TOC read answered by the TOC read earlier
             ix, info = p["ix"], p["info"]
             ix._stale = info
